@@ -94,6 +94,21 @@ def trace_to_root(core, g, operand, root, _depth=0, _helpers=None, _suffix=None)
                             out.append((h, x))
             if not found:
                 out.append((g, o))
+        elif g.kind == 'Closure' and not g.coroutine and o.kind == 'arg' and o.n >= 2:
+            # a parameter of a closure: follow it into the argument at the places where the family calls this very closure
+            family = [root] + core.closures_of(root)
+            found = False
+            for h in family:
+                for bb, t in h.calls('core::ops::function::Fn::call', 'core::ops::function::FnMut::call_mut', 'core::ops::function::FnOnce::call_once'):
+                    if len(t['args']) != 2 or not any(x.kind == 'agg' and x.stmt['rv'].get('def') == g.path for x in origins(h, t['args'][0])):
+                        continue
+                    for x in origins(h, t['args'][1]):
+                        if x.kind == 'agg' and x.stmt['rv'].get('ak') == 'tuple' and o.n - 2 < len(x.stmt['rv']['ops']):
+                            found = True
+                            for h2, y in trace_to_root(core, h, x.stmt['rv']['ops'][o.n - 2], root, _depth + 1, _helpers, _suffix=list(o.suffix or [])):
+                                out.append((h2, y))
+            if not found:
+                out.append((g, o))
         elif g.kind != 'Closure' and o.kind == 'arg':
             sites = [(caller, bb, t) for (hp, caller, bb, t) in _helpers if hp.path == g.path]
             if not sites:
